@@ -878,19 +878,21 @@ var c20PoolGroup = []int{0, 0, 0, 0, 1, 1, 1, 1, 2, 3}
 func c20Pool(i int) dns.RR {
 	switch {
 	case i < 8:
-		owner, ttl, mx := "example.org.", uint32(5), "Mail.Example.ORG."
+		// the owner contains a literal backslash directly followed by a letter, an escaped dot and a \DDD escape, so
+		// that the case folding of Dedup's key has to get the escape state right
+		owner, ttl, mx := `a\\b.x\.y.q\007z.example.org.`, uint32(5), "Mail.Example.ORG."
 		if i&1 != 0 {
 			ttl = 9
 		}
 		if i&2 != 0 {
-			owner = "EXAMPLE.ORG."
+			owner = `A\\B.X\.Y.Q\007Z.EXAMPLE.ORG.`
 		}
 		if i&4 != 0 {
 			mx = "mail.example.org."
 		}
 		return &dns.MX{Hdr: dns.RR_Header{Name: owner, Rrtype: dns.TypeMX, Class: dns.ClassINET, Ttl: ttl}, Preference: 10, Mx: mx}
 	case i == 8:
-		return &dns.TXT{Hdr: dns.RR_Header{Name: "example.org.", Rrtype: dns.TypeTXT, Class: dns.ClassINET, Ttl: 7}, Txt: []string{"Mail.Example.ORG."}}
+		return &dns.TXT{Hdr: dns.RR_Header{Name: `a\\b.x\.y.q\007z.example.org.`, Rrtype: dns.TypeTXT, Class: dns.ClassINET, Ttl: 7}, Txt: []string{"Mail.Example.ORG."}}
 	default:
 		return &dns.MX{Hdr: dns.RR_Header{Name: "Other.example.org.", Rrtype: dns.TypeMX, Class: dns.ClassINET, Ttl: 3}, Preference: 10, Mx: "Mail.Example.ORG."}
 	}
